@@ -14,13 +14,16 @@ import (
 	"go/ast"
 	"go/parser"
 	"go/token"
+	"math"
 	"math/big"
+	"math/rand"
 	"os"
 	"path/filepath"
 	"runtime"
 	"time"
 
 	"github.com/idena-network/idena-go/blockchain/types"
+	"github.com/idena-network/idena-go/blockchain/validation"
 	"github.com/idena-network/idena-go/common"
 	"github.com/idena-network/idena-go/crypto"
 	"github.com/idena-network/idena-go/ipfs"
@@ -35,7 +38,8 @@ import (
 type c03case struct {
 	Seed   int64 `json:"seed"`
 	Blocks int   `json:"blocks"`
-	All    bool  `json:"all"` // every operator on every block (else a sample per block, all on every 4th)
+	All    bool  `json:"all"`      // every operator on every block (else a sample per block, all on every 4th)
+	God    bool  `json:"god_mode"` // nobody goes online: only the god address may propose; it hands the role over mid-history
 }
 
 type tamper struct {
@@ -111,6 +115,17 @@ func proposedTampers(p *pairfx.Pair, other *types.Block, foreign []*types.Transa
 	add("tamper proposed Height minus1", func(b *types.Block) bool { ph(b).Height--; return true })
 	add("tamper proposed Time early", func(b *types.Block) bool { ph(b).Time = p.B.Chain.Head.Time() + 1; return true })
 	add("tamper proposed Time future", func(b *types.Block) bool { ph(b).Time = common.VerifNow().Unix() + 3600; return true })
+	// the whole int64 range outside the window [parent + 10 s, now + 2 min] (a timestamp inside it is the proposer's free choice)
+	pt := p.B.Chain.Head.Time()
+	for _, tv := range []struct {
+		name string
+		v    int64
+	}{{"parent", pt}, {"parent-plus9", pt + 9}, {"parent-minus1", pt - 1}, {"zero", 0}, {"negative", -(1 << 62)}, {"min-int64", math.MinInt64},
+		{"min-int64-wrap9", math.MinInt64 + pt + 9}, {"min-int64-wrap10", math.MinInt64 + pt + 10}, {"min-int64-wrap", math.MinInt64 + pt - 1},
+		{"future-edge", common.VerifNow().Unix() + 121}, {"max-int64", math.MaxInt64}, {"max-internal-wrap", math.MaxInt64 - 62135596800 + 1 + pt + 15}} {
+		tv := tv
+		add("tamper proposed Time "+tv.name, func(b *types.Block) bool { ph(b).Time = tv.v; return true })
+	}
 	add("tamper proposed TxHash flip", func(b *types.Block) bool { ph(b).TxHash = flipHash(ph(b).TxHash); return true })
 	add("tamper proposed TxHash other", func(b *types.Block) bool {
 		if other == nil || other.IsEmpty() || other.Header.ProposedHeader.TxHash == ph(b).TxHash {
@@ -293,14 +308,53 @@ func headerFields() (map[string][]string, error) {
 	return out, nil
 }
 
+func eligibleOn(n *chainfx.Node, a common.Address) bool {
+	vc := n.App.ValidatorsCache
+	return vc.IsOnlineIdentity(a) || (a == n.App.State.GodAddress() && vc.OnlineSize() == 0)
+}
+
+// godModePair: as pairfx.NewPair, but nobody ever goes online, so only the god address may propose.
+func godModePair(seed int64, nUsers int) (*pairfx.Pair, error) {
+	r := rand.New(rand.NewSource(seed))
+	w := chainfx.NewWorld(seed, nUsers, 0, time.Date(2030, 1, 1, 0, 0, 0, 0, time.UTC))
+	chainfx.SetTime(w.T0)
+	w.Opts.Validation = chainfx.ShortValidation()
+	w.Opts.FirstCeremony = w.T0.Add(8 * time.Minute).Unix()
+	a, err := w.StartNode(nil, 0, true)
+	if err != nil {
+		return nil, err
+	}
+	h := chainfx.NewHistory(w, a, r, chainfx.HistoryOpts{TxPerBlock: 4, NoOnline: true})
+	b, err := w.StartNode(nil, 1, true)
+	if err != nil {
+		return nil, err
+	}
+	return &pairfx.Pair{W: w, A: a, B: b, H: h, R: r}, nil
+}
+
 func c03run(c *hx.Ctx, cs c03case) error {
-	p, err := pairfx.NewPair(cs.Seed, true, 8)
+	var p *pairfx.Pair
+	var err error
+	if cs.God {
+		p, err = godModePair(cs.Seed, 8)
+	} else {
+		p, err = pairfx.NewPair(cs.Seed, true, 8)
+	}
 	if err != nil {
 		return err
 	}
 	defer os.RemoveAll("./testdata")
 	defer os.RemoveAll("./testdata2")
 	A, B, r := p.A, p.B, p.R
+	// a third full node whose key may not propose: its own ProposeBlock yields blocks that are consistent in every derived
+	// field (seed proof, roots, commitments) and wrong only in who proposed them
+	outIdx := len(p.W.Keys) - 1
+	C, err := p.W.StartNode(nil, outIdx, true)
+	if err != nil {
+		return err
+	}
+	propIdx := 0
+	handedOver := false
 	fail := func(sig, detail string, extra interface{}) {
 		c.Fail(sig, detail, map[string]interface{}{"case": cs, "at": extra})
 	}
@@ -308,8 +362,15 @@ func c03run(c *hx.Ctx, cs c03case) error {
 	var prevBlocks []*types.Block
 	for b := 1; b <= cs.Blocks; b++ {
 		p.H.OfferTxs(b)
-		if r.Intn(3) == 0 {
+		if r.Intn(3) == 0 && !cs.God {
 			p.OfferConflicts(b)
+		}
+		if cs.God && !handedOver && b >= cs.Blocks/2 && A.App.State.ValidationPeriod() == 0 {
+			// the god address hands its role over to the third node's address (its own, honest transaction)
+			to := p.W.Addrs[outIdx]
+			if _, err := p.H.S.Send(A, propIdx, &types.Transaction{Type: types.ChangeGodAddressTx, To: &to}); err == nil {
+				c.Hit("god-handover-tx-sent")
+			}
 		}
 		chainfx.Advance(20 * time.Second)
 		var blk *types.Block
@@ -317,7 +378,7 @@ func c03run(c *hx.Ctx, cs c03case) error {
 		if empty {
 			blk = A.Chain.GenerateEmptyBlock()
 		} else {
-			if !A.IsEligibleProposer() {
+			if !eligibleOn(A, A.Addr) {
 				c.Hit("history-ended:proposer-not-eligible")
 				break
 			}
@@ -346,6 +407,80 @@ func c03run(c *hx.Ctx, cs c03case) error {
 				if !pb.IsEmpty() && len(pb.Body.Transactions) > 0 {
 					foreign = append(foreign, pb.Body.Transactions[0])
 					break
+				}
+			}
+		}
+		before0 := observe(B)
+		if !empty && !eligibleOn(B, C.Addr) {
+			// (1) C's proposal as it is; (2) in god mode also with the current god's hand-over to C in its body: the proposer
+			// must be judged on the state the block builds on, not on the state its own transactions produce
+			for variant := 0; variant < 2; variant++ {
+				var htx *types.Transaction
+				if variant == 1 {
+					if !cs.God || B.App.State.ValidationPeriod() != 0 || B.App.State.GodAddress() != p.W.Addrs[propIdx] {
+						continue
+					}
+					nonce := uint32(1)
+					if B.App.State.GetEpoch(p.W.Addrs[propIdx]) == B.App.State.Epoch() {
+						nonce = B.App.State.GetNonce(p.W.Addrs[propIdx]) + 1
+					}
+					to := C.Addr
+					htx, _ = types.SignTx(&types.Transaction{Type: types.ChangeGodAddressTx, To: &to, AccountNonce: nonce, Epoch: B.App.State.Epoch(),
+						MaxFee: chainfx.Dna(200)}, p.W.Keys[propIdx])
+					if err := C.Pool.AddExternalTxs(validation.InboundTx, htx); err != nil {
+						c.Hit("outsider-handover-tx-refused-by-pool")
+						continue
+					}
+				}
+				op, perr := C.Propose()
+				if htx != nil {
+					C.Pool.Remove(htx)
+				}
+				if perr != nil || op == nil || op.Block == nil || op.Block.IsEmpty() {
+					c.Hit("outsider-propose-failed")
+					continue
+				}
+				if htx != nil {
+					has := false
+					for _, tx := range op.Block.Body.Transactions {
+						has = has || tx.Hash() == htx.Hash()
+					}
+					if !has {
+						c.Hit("outsider-handover-tx-not-in-block")
+						continue
+					}
+				}
+				ob, err := chainfx.CloneBlock(op.Block)
+				if err != nil {
+					continue
+				}
+				line := fmt.Sprintf("outsider %d", variant)
+				accepted := false
+				func() {
+					defer func() {
+						if rec := recover(); rec != nil {
+							fail("C03:validation-panic", fmt.Sprintf("height %d %s: %v", ob.Height(), line, rec), b)
+						}
+					}()
+					if _, verr := B.Chain.ValidateBlock(ob, nil, collector.NewStatsCollector()); verr == nil {
+						accepted = true
+					}
+					if aerr := B.Chain.AddBlock(ob, nil, collector.NewStatsCollector()); aerr == nil {
+						accepted = true
+					}
+				}()
+				c.Rep.Evaluations++
+				c.Hit("op:" + line)
+				if accepted {
+					c.Line(line, "acc")
+					fail("C03:ineligible-proposer-accepted:"+line, fmt.Sprintf("height %d: a block proposed by %s (not online; god address %s, %d online) was accepted", ob.Height(),
+						C.Addr.Hex(), B.App.State.GodAddress().Hex(), B.App.ValidatorsCache.OnlineSize()), b)
+					return nil
+				}
+				c.Line(line, "rej")
+				if after := observe(B); after != before0 {
+					fail("C03:rejection-changed-node:"+line, fmt.Sprintf("height %d: after refusing (%s) the node differs", ob.Height(), line), b)
+					return nil
 				}
 			}
 		}
@@ -442,6 +577,19 @@ func c03run(c *hx.Ctx, cs c03case) error {
 			fail("C03:replicas-diverge", fmt.Sprintf("height %d", blk.Height()), b)
 			return nil
 		}
+		cb, _ := chainfx.CloneBlock(blk)
+		if err := C.Add(cb); err != nil {
+			fail("C03:original-not-insertable", fmt.Sprintf("height %d on the third node: %v", blk.Height(), err), b)
+			return nil
+		}
+		if cs.God && !handedOver && B.App.State.GodAddress() == C.Addr {
+			// the role moved: the third node proposes from now on, the old god's node is the one that may not
+			handedOver = true
+			A, C = C, A
+			propIdx, outIdx = outIdx, propIdx
+			p.A, p.H.N = A, A
+			c.Hit("god-handover-done")
+		}
 		prevBlocks = append(prevBlocks, blk)
 		if len(prevBlocks) > 12 {
 			prevBlocks = prevBlocks[1:]
@@ -495,10 +643,10 @@ func init() {
 			}
 		}
 		c.Rep.Coverage["header_fields"] = fields
-		c.Rep.Rule = "two real replicas over multi-epoch histories; every valid block (proposed / empty) x tampering operators (bit flip, +-1, nil, value from another block on every derived header field; every persistent flag bit; timestamp window early/future; ineligible / garbage proposer key; body drop/duplicate/reorder/append foreign-epoch, unaffordable, replayed tx with and without recomputed TxHash+IpfsHash); evaluation = one tampered block through B's ValidateBlock and AddBlock + full database hash comparison; distinct = (history, block, operator)"
+		c.Rep.Rule = "two real replicas over multi-epoch histories; every valid block (proposed / empty) x tampering operators (bit flip, +-1, nil, value from another block on every derived header field; every persistent flag bit; timestamp window: early/future and the int64 extremes and wrap-around points; ineligible / garbage proposer key; a third full node's own (fully consistent) proposals while it may not propose, in god-mode histories also carrying the god's hand-over to it, and the real hand-over mid-history; body drop/duplicate/reorder/append foreign-epoch, unaffordable, replayed tx with and without recomputed TxHash+IpfsHash); evaluation = one tampered block through B's ValidateBlock and AddBlock + full database hash comparison; distinct = (history, block, operator)"
 		nh := c.Scale(3, 60)
 		for i := 0; i < nh; i++ {
-			cs := c03case{Seed: c.Seed*1000 + int64(i), Blocks: 70, All: c.Tier == "thorough"}
+			cs := c03case{Seed: c.Seed*1000 + int64(i), Blocks: 70, All: c.Tier == "thorough", God: i%3 == 2}
 			if err := c03run(c, cs); err != nil {
 				return err
 			}
